@@ -185,11 +185,17 @@ impl ThreadPool {
             .expect("worker thread must still exist - thread pool cannot operate without workers");
         }
 
-        for rx in result_rxs {
-            results.push(
-                rx.recv()
-                    .expect("worker thread failed to send result - did it panic?"),
-            );
+        // We must wait for every worker to either deliver its result or die before we are allowed
+        // to return or unwind, because until then the worker may still be executing the callback
+        // whose lifetime we extended above. So we first collect the outcome from all workers and
+        // only then complain about the ones that failed.
+        let outcomes = result_rxs
+            .into_iter()
+            .map(|rx| rx.recv())
+            .collect::<Vec<_>>();
+
+        for outcome in outcomes {
+            results.push(outcome.expect("worker thread failed to send result - did it panic?"));
         }
 
         results.into_boxed_slice()
